@@ -222,8 +222,28 @@ def main(argv):
         print(r or "no difference from the full-copy reference")
         return 1 if r else 0
     out = []
-    for tgt, (_, _, _, qual) in TARGETS.items():
+    for tgt, (ops_, fn, _, qual) in TARGETS.items():
         r = search(tgt)
+        if not r:
+            # longer histories: seeded random search (deterministic), then shrink by dropping operations
+            import random
+
+            rnd = random.Random(12345)
+            for _ in range(60000):
+                hist = [rnd.choice(ops_) for _ in range(rnd.randint(8, 14))]
+                why = fn(hist)
+                if why:
+                    changed = True
+                    while changed:
+                        changed = False
+                        for i in range(len(hist)):
+                            h2 = hist[:i] + hist[i + 1:]
+                            w2 = fn(h2)
+                            if w2:
+                                hist, why, changed = h2, w2, True
+                                break
+                    r = (hist, why)
+                    break
         if r:
             out.append({"target": tgt, "for": qual, "history": r[0], "observed": r[1]})
     print(json.dumps(out))
